@@ -107,6 +107,14 @@ func H_C09_roundtrip() {
 	}
 	// a single empty field in the last row would make the text end with a row ending: excluded
 	t := csv.NewCsvTokenizer()
+	if vParam("RECONF") == 1 {
+		// the tokenizer was configured differently and used before ("any valid choice" of
+		// separators and quote symbols includes a choice made on a used instance)
+		t.SetFieldSeparators([]rune{'|'})
+		t.SetQuoteSymbols([]rune{'^'})
+		t.SetDecodeStrings(true)
+		t.TokenizeBuffer("a|^b^^^\n" + string(cfg.quotes[0]) + string(cfg.seps[0]))
+	}
 	t.SetFieldSeparators(cfg.seps)
 	t.SetQuoteSymbols(cfg.quotes)
 	t.SetDecodeStrings(true)
